@@ -44,23 +44,28 @@ package replication
 //@ func (tableQueueLenStore).Max
 //@   assumed
 //@   modifies nothing
+// the throttle: speed stays an index into the five intervals
 //@ func (*replicationThrottle).current
-//@   assumed
+//@   requires t != nil && 0 <= t.speed && t.speed < 5
+//@   ensures result == t.intervals[t.speed]
 //@   modifies nothing
 //@ func (*replicationThrottle).up
-//@   assumed
+//@   requires t != nil && 0 <= t.speed && t.speed < 5
+//@   ensures t.speed == (old(t.speed) + 1 < 4 ? old(t.speed) + 1 : 4)
 //@   modifies t.speed
 //@ func (*replicationThrottle).down
-//@   assumed
+//@   requires t != nil && 0 <= t.speed && t.speed < 5
+//@   ensures t.speed == (old(t.speed) - 1 > 0 ? old(t.speed) - 1 : 0)
 //@   modifies t.speed
 
 //@ func (*worker).Start$3
 //@   maypanic
-//@   requires *w != nil && (*w).workerFactory != nil && (*w).engine != nil && (*w).engine.Manager != nil && (*w).engine.Manager.store != nil && (*w).log != nil && (*w).recoverySemaphore != nil && (*w).engine.NodeHost != nil && (*w).logClient != nil && (*w).metrics.replicationFollowerIndex != nil && (*w).metrics.replicationLeaderIndex != nil
+//@   requires *w != nil && (*w).workerFactory != nil && (*w).engine != nil && (*w).engine.Manager != nil && (*w).engine.Manager.store != nil && (*w).log != nil && (*w).recoverySemaphore != nil && (*w).engine.NodeHost != nil && (*w).logClient != nil && (*w).metrics.replicationFollowerIndex != nil && (*w).metrics.replicationLeaderIndex != nil && 0 <= (*w).throttle.speed && (*w).throttle.speed < 5
 //@   modifies (*w).engine.NodeHost.lastRes, (*w).engine.NodeHost.lastErr, (*w).engine.NodeHost.lastCmd, (*w).engine.NodeHost.nelem, (*w).engine.NodeHost.nseq, allfields(worker), allfields(replicationThrottle), family(CH_len), world.clock, (*w).engine.Manager.store.rHas, (*w).engine.Manager.store.rPair, (*w).engine.Manager.store.nwk, (*w).engine.Manager.store.wVal, (*w).engine.Manager.store.wVer, (*w).engine.Manager.store.wDel, (*w).engine.Manager.store.wPrevHas, (*w).engine.Manager.store.wPrev
 //@   before replication.(*worker).do assert [C15.gate] (*w).leased.v != 0
 // the session used for proposing is derived, on every poll, from the shard the table currently points at
 //@   before replication.(*worker).do assert [C05.session] session == noopS(id) && leaderIndex == idx
+//@   loop 0 invariant 0 <= (*w).throttle.speed && (*w).throttle.speed < 5
 //@   loop 0 invariant (*w).metrics == old((*w).metrics) && (*w).engine.NodeHost == old((*w).engine.NodeHost) && (*w).logClient == old((*w).logClient) && (*w).workerFactory == old((*w).workerFactory)
 //@   loop 0 invariant t != nil && (*w).workerFactory == old((*w).workerFactory) && (*w).engine == old((*w).engine) && (*w).engine.Manager == old((*w).engine.Manager) && (*w).engine.Manager.store == old((*w).engine.Manager.store) && (*w).log == old((*w).log) && (*w).recoverySemaphore == old((*w).recoverySemaphore)
 
